@@ -222,7 +222,7 @@ class Ctx:
 
     def finish(self, level, rule=None, assumptions=None, samples=None, exhaustive=None, extra=None):
         known = load_known(self.prop)
-        evid_dir = os.path.join(VERIF, "evidence")
+        evid_dir = os.environ.get("VERIF_EVIDENCE") or os.path.join(VERIF, "evidence")
         rep_dir = os.path.join(evid_dir, "replay")
         os.makedirs(rep_dir, exist_ok=True)
         for old in glob.glob(os.path.join(rep_dir, "%s-*.json" % self.prop)):
@@ -321,12 +321,15 @@ def match_known(known, v):
     return None
 
 
-def trace_verdict(ctx, res, trace_path, aux_path=None, check="trace", describe=None):
+def trace_verdict(ctx, res, trace_path, aux_path=None, check="trace", describe=None, key="n"):
     """Interpret the output of a Trace*.tla run: the spec prints <<"VERIF-REJECTED", {line numbers}>> and
     <<"VERIF-CONSUMED", n>>; every rejected line becomes a violation carrying the recorded event
     (and the concrete input from the aux file, when there is one)."""
-    consumed, rejected = None, []
+    consumed, rejected, whys = None, [], {}
     for line in res["printed"]:
+        m = re.search(r'"VERIF-WHY",\s*(\d+),\s*\{([^}]*)\}', line)
+        if m:
+            whys[int(m.group(1))] = ",".join(sorted(re.findall(r'"(\w+)"', m.group(2))))
         m = re.search(r'"VERIF-CONSUMED",\s*(\d+)', line)
         if m:
             consumed = int(m.group(1))
@@ -350,9 +353,39 @@ def trace_verdict(ctx, res, trace_path, aux_path=None, check="trace", describe=N
         for ln in rejected[:20]:
             ev = json.loads(events[ln - 1])
             sig = describe(ev) if describe else "trace-rejected"
-            case = aux.get(ev.get("n"), ev)
+            if ln in whys:
+                sig += ":" + whys[ln]
+            case = aux.get(ev.get(key), ev)
             ctx.violate(check, sig, "TLC rejects recorded event %d: %s" % (ln, json.dumps(ev)[:600]), case)
     return consumed, rejected
+
+
+def sharded_trace(ctx, module, cfg, trace_path, aux_path=None, check="trace", describe=None, key="n", shards=None, timeout=3000):
+    """Validate a long trace of independent events in parallel: split it into shards, one TLC (1 worker) per shard."""
+    import concurrent.futures
+    lines = open(trace_path).read().splitlines()
+    shards = shards or min(NCPU, max(1, len(lines) // 200))
+    parts = [lines[i::shards] for i in range(shards)]
+    paths = []
+    for i, part in enumerate(parts):
+        p = "%s.shard%d" % (trace_path, i)
+        with open(p, "w") as f:
+            f.write("\n".join(part) + ("\n" if part else ""))
+        paths.append(p)
+
+    def one(i):
+        if not parts[i]:
+            return None
+        return ctx.tlc(module, cfg, workers=1, files={"trace.ndjson": paths[i]}, timeout=timeout, name="%s[%d/%d]" % (module, i, shards))
+    with concurrent.futures.ThreadPoolExecutor(max_workers=shards) as ex:
+        results = list(ex.map(one, range(shards)))
+    total = 0
+    for i, res in enumerate(results):
+        if res is None:
+            continue
+        c, _ = trace_verdict(ctx, res, paths[i], aux_path, check=check, describe=describe, key=key)
+        total += c
+    return total
 
 
 def main(run_fn, prop):
